@@ -41,11 +41,18 @@ int main() {
     return main_loop([](const Case &c) {
         if (c.lines.empty() || c.lines[0].size() != 1) { emit({PRE}); return; }
         emit({});
+        size_t fds0 = 0;
+        for (auto &e : fs::directory_iterator("/proc/self/fd")) { (void) e; ++fds0; }
         std::string base = fs::current_path().string();
         std::string root = base + "/tree-" + std::to_string(getpid()) + "-" + std::to_string(counter++);
         fs::remove_all(root);
         fs::create_directories(root);
         if (chdir(root.c_str()) != 0) { oracle_fail("harness: cannot enter the scratch directory"); return; }
+        {
+            using namespace tulz;
+            if (Path::getSystemPath().toString() != "/" || !Path::getSystemPath().isAbsolute()) oracle_fail("C18: the system path is not the absolute path /");
+            if ("a b/..c"_p.toString() != "a b/..c") oracle_fail("C18: the _p literal does not keep its bytes");
+        }
         auto pathOf = [&](const Line &l, size_t from, bool &ok) {
             std::string p = root;
             for (size_t i = from; i < l.size(); ++i) {
@@ -146,7 +153,13 @@ int main() {
             case 53: {
                 std::string p = pathOf(l, 1, ok); if (!ok) break;
                 std::string before = fs::current_path().string(), during;
-                { tulz::DirectoryVisitor v{Path(p)}; during = fs::current_path().string(); }
+                if (p.size() % 2) {
+                    tulz::DirectoryVisitor v{Path(p)}; during = fs::current_path().string();
+                    if (v.get().toString() != p) oracle_fail("C18: DirectoryVisitor::get() does not return the directory it was given");
+                } else {   // the same in three calls: default construction, set(), visit(); the destructor restores
+                    tulz::DirectoryVisitor v; v.set(Path(p)); v.visit(); during = fs::current_path().string();
+                    if (v.get().toString() != p) oracle_fail("C18: DirectoryVisitor::get() does not return the directory it was given");
+                }
                 std::string after = fs::current_path().string();
                 out = {during == before ? 1 : 0, after == before ? 1 : 0};
                 if (after != before) oracle_fail("C18: DirectoryVisitor did not restore the working directory");
@@ -176,5 +189,12 @@ int main() {
         }
         if (chdir(base.c_str()) != 0) {}
         fs::remove_all(root);
+        {
+            // Path operations are self-contained: they must give back every descriptor they open (a leak of one per probed
+            // directory makes exists / isDirectory / size disagree with the filesystem once the process runs out of them)
+            size_t fdsNow = 0;
+            for (auto &e : fs::directory_iterator("/proc/self/fd")) { (void) e; ++fdsNow; }
+            if (fdsNow > fds0) oracle_fail("C18: " + std::to_string(fdsNow - fds0) + " file descriptor(s) opened by Path operations were never closed");
+        }
     }, 60, 32);
 }
